@@ -7,6 +7,7 @@ mod client;
 mod conn;
 mod connmc;
 mod connref;
+mod gen;
 mod idl;
 mod conntrace;
 mod cuts;
@@ -41,6 +42,8 @@ fn main() {
         "cert" => cert::run(rest),
         "certtrace" => cert::run_trace(rest),
         "wire" => wire::run(rest),
+        "gen" => gen::run(rest),
+        "cargobuild" => gen::run_cargobuild(rest),
         "idlnames" => idl::run_names(rest),
         "idltok" => idl::run_tokens(rest),
         "idlast" => idl::run_ast(rest),
